@@ -6,6 +6,7 @@
    scalar class of a node is read off its resolved tag (yaml.v3's parser always stores the resolved short tag in
    Node.Tag), strconv.ParseFloat is a parameter [pf] of [marshal]. *)
 From Verif Require Export Base.Bytes.
+From Verif Require Import Src.SrcCrypt.
 
 (* ---------------- yaml.Node ---------------- *)
 Record ymeta := mkMeta {
@@ -131,6 +132,20 @@ Definition norm_tag (t : string) (m : ymeta) : ymeta :=
 
 Definition mem_str (x : string) (l : list string) : bool := existsb (String.eqb x) l.
 
+(* ---- the guard of fix 9b9d633, with the constants read from MarshalYAML by srcfacts (Src/SrcCrypt.v):
+        if yamlNode.Style&(SingleQuotedStyle|DoubleQuotedStyle) == 0 && strings.Contains(value, block_contains) {
+            for _, prefix := range block_prefixes { if strings.HasPrefix(value, prefix) {
+                yamlNode.Style = yamlNode.Style&^(LiteralStyle|FoldedStyle) | DoubleQuotedStyle } } }
+   If srcfacts does not find the guard, block_prefixes is empty and the model has no guard. ---- *)
+Definition block_prefixes : list string := marshal_block_prefixes.
+Definition block_contains : string := marshal_block_contains.
+
+Definition block_guard (style : N) (v : string) : bool :=
+  (N.land style (st_single + st_double) =? 0) && scontains block_contains v
+  && existsb (fun p => sprefix p v) block_prefixes.
+
+Definition force_double (style : N) : N := N.lor (N.ldiff style (st_literal + st_folded)) st_double.
+
 Section Marshal.
   (* tables read from MarshalYAML by srcfacts: spellings of null that are kept, words that force quoting *)
   Variable null_words : list string.
@@ -150,10 +165,13 @@ Section Marshal.
      a node the decoder classified as a number; kept as is *)
   Definition marshal_num (s : syn) : ymeta := base_meta s.
 
+  (* the last step of the StringNode case (fix 9b9d633): a string that is not already quoted, contains a line feed and
+     starts with one of the listed prefixes is written double-quoted (block styles cleared) *)
   Definition marshal_str (s : syn) (v : string) : ymeta :=
     let m := norm_tag tag_str (base_meta s) in
     let m := if needs_quote v then set_style m st_single else m in
-    set_value m v.
+    let m := set_value m v in
+    if block_guard (y_style m) v then set_style m (force_double (y_style m)) else m.
 
   Fixpoint marshal (n : snode) : ynode :=
     match n with
@@ -247,7 +265,8 @@ Definition content : ynode -> ynode := content_in false.
    contains a line feed as a literal/folded block scalar when it is not inside a flow collection.  If the text
    starts with a line break (LF, U+2028, U+2029) the emitter drops that first break; if it starts with a tab the
    emitted text cannot be read back.  Such scalars are outside the part of the codec the theorems assume to round
-   trip, and form the known-finding class C12-blockscalar. *)
+   trip.  They were the known-finding class C12-blockscalar until fix 9b9d633; since then MarshalYAML never hands
+   one to the emitter ([block_guard]; Proofs/CryptCodec.v rewrite_output_encodable). *)
 Definition block_unsafe_value (v : string) : bool :=
   scontains (String (ascii_of_N 10) EmptyString) v
   && (sprefix (String (ascii_of_N 10) EmptyString) v || sprefix (String (ascii_of_N 9) EmptyString) v
